@@ -33,6 +33,8 @@ pub enum SEv {
     /// Deliver a reply to the `which`-th parked heartbeat.
     Reply { which: usize, kind: Reply },
     Upgrade,
+    /// set_config(syncing = disabled / enabled) by the controller
+    SetSyncing(bool),
 }
 
 pub struct ParkedHb {
@@ -150,6 +152,7 @@ pub struct SCtx {
     /// a reject or an upgrade happened: the next request must be an initial one
     pub expect_initial: bool,
     pub last_was_upgrade: bool,
+    pub syncing: bool,
 }
 
 pub struct SchedModel {
@@ -165,6 +168,8 @@ pub struct SchedModel {
     pub liveness: bool,
     /// compare all probe answers across upgrades (C09)
     pub upgrade_transparency: bool,
+    /// offer set_config(syncing) toggles as deviations
+    pub syncing_toggles: bool,
 }
 
 fn hash_of_bh(h: &ic_btc_types::BlockHash) -> H32 {
@@ -355,6 +360,7 @@ impl Model for SchedModel {
             expect_follow_up: None,
             expect_initial: false,
             last_was_upgrade: false,
+            syncing: true,
         }
     }
 
@@ -364,6 +370,13 @@ impl Model for SchedModel {
         }
         let dev_ok = s.deviations < self.max_deviations;
         let mut evs = vec![];
+        if !s.syncing {
+            // while syncing is off the controller's next move is to switch it on again
+            // (possibly after heartbeats and replies to a request that was already out)
+            evs.push(SEv::SetSyncing(true));
+        } else if dev_ok && self.syncing_toggles && !hist.is_empty() && !matches!(hist.last(), Some(SEv::SetSyncing(_))) {
+            evs.push(SEv::SetSyncing(false));
+        }
         if s.parked.is_empty() {
             evs.push(SEv::Hb);
             if dev_ok && !s.last_was_upgrade && !hist.is_empty() {
@@ -534,6 +547,29 @@ impl Model for SchedModel {
                 }
                 self.absorb(s, out, check);
             }
+            SEv::SetSyncing(on) => {
+                if !*on {
+                    s.deviations += 1;
+                    if check {
+                        out.count("syncing_switched_off");
+                        if s.expect_follow_up.is_some() {
+                            out.count("syncing_switched_off_between_pages");
+                        }
+                    }
+                }
+                let r = s.w.set_config(ic_btc_interface::SetConfigRequest {
+                    syncing: Some(crate::world::flag(*on)),
+                    ..Default::default()
+                });
+                if let Err(p) = r {
+                    s.dead = true;
+                    if check {
+                        out.violation("set-config-trap", None, json!({"panic": p}));
+                    }
+                    return false;
+                }
+                s.syncing = *on;
+            }
             SEv::Upgrade => {
                 s.deviations += 1;
                 let before = if check && self.upgrade_transparency {
@@ -607,6 +643,9 @@ impl Model for SchedModel {
                 && with_state(|st| st.syncing_state.response_to_process.is_none())
                 && !s.w.is_ingesting()
         };
+        if !s.syncing {
+            let _ = self.apply(s, &SEv::SetSyncing(true), false, &mut scratch);
+        }
         while steps < k && !(all_in(s) && s.parked.is_empty()) {
             let ev = if s.parked.is_empty() {
                 SEv::Hb
@@ -658,6 +697,7 @@ impl Model for SchedModel {
         b.push(s.expect_initial as u8);
         b.push(s.last_was_upgrade as u8);
         b.push(s.dead as u8);
+        b.push(s.syncing as u8);
         let h = crate::util::sha256(&b);
         Some(u128::from_le_bytes(h[..16].try_into().unwrap()))
     }
